@@ -14,6 +14,30 @@ CHECKS = {
    technique='Coq proof over a py2coq-generated real-number model; bridge re-proved per run; Interval-certified correspondence',
    ref='DESIGN.md section 7, C06'),
 }
+CHECKS.update({
+ 'C07': dict(
+   text='Machine-checked proof (Coq) about the generated model: partial_derivative = dC/dv, density = d2C/dudv (Coquelicot is_derive), '
+        'h in [0,1] and monotone with end values/limits, density positive and symmetric, density integrates to the C-volume over every rectangle '
+        '(RInt), log density, row-wise batches; all families, all admissible theta, unbounded; tie = py2coq regeneration + bridge + Interval-certified comparison.',
+   note=TB + 'Claimed on the open unit square (checked on [1e-4,1-1e-4]^2); IEEE overflow guards are constant-false in the real model; the unused base-class finite-difference fallback is not modelled.',
+   technique='Coq/Coquelicot derivative and integral proofs over a py2coq-generated model; Interval-certified correspondence',
+   ref='DESIGN.md section 7, C07'),
+ 'C08': dict(
+   text='Machine-checked proof (Coq): Clayton closed-form inverse (h(ppf(y,v),v)=y, range, monotone in y) for all theta>0; uniqueness of the root for all '
+        'three families (h strictly increasing); the generated Brent loop (bracket [EPSILON,1], objective h(x,v)-y, one solve per lane) inverts h for Frank/Gumbel '
+        'under an explicit solver hypothesis and a valid lower bracket; element-wise; shortcuts. Correspondence: recorded solver calls + Interval-certified round trip through the generated h.',
+   note=TB + 'scipy.optimize.brentq is an oracle (idealised: exact root in a valid bracket); Frank/Gumbel theorems are conditional on h(EPSILON,v) <= y (known finding F17 is the Gumbel corner where it fails).',
+   technique='Coq proof over generated model + solver oracle hypothesis; certified round-trip correspondence',
+   ref='DESIGN.md section 7, C08'),
+ 'C10': dict(
+   text='Machine-checked proof (Coq): generated compute_theta equals the closed-form calibration and inverts the family tau map (Clayton, Gumbel), refusal of '
+        'negative tau / tau=1 (Gumbel); Frank residual handed to least_squares is the Debye tau equation (RInt) and the stored theta is its root under the solver '
+        'hypothesis; executable Q versions proved equal to the R versions (Q2R); control skeleton of fit (range check, NaN tau, check_theta) as Model.BivCtl with '
+        'refusal/admissibility theorems; full-strength usability refuted with witnesses (tau=0, tau=1). Correspondence: vm_compute of fit_ctl vs real fit on designed/random tables.',
+   note=TB + 'kendalltau, least_squares, quad are oracles (captured); Model.BivCtl is hand-written and tied only by the correspondence.',
+   technique='Coq proof over generated calibration formulas + hand-written control model with vm_compute correspondence',
+   ref='DESIGN.md section 7, C10'),
+})
 NOT_YET = {}
 def main():
     props = [json.loads(l) for l in open(os.path.join(V, 'properties.jsonl'))]
